@@ -157,10 +157,28 @@ func tryOpOf[T any](e *c02env, p int, v T) fp.Try[T] {
 }
 func tryRet(e *c02env, p int, v int) fp.Try[int] { return tryOpOf(e, p, v) }
 func tryResOf[T any](e *c02env, t fp.Try[T], conv func(T) int) c02res {
+	if bad := tryViewsDisagree(t); bad != "" && e.headBad == "" {
+		e.headBad = bad
+	}
 	if t.IsSuccess() {
 		return c02res{ok: true, val: conv(t.Get())}
 	}
 	return c02res{tag: e.tagOfErr(t.Failed().Get())}
+}
+
+// tryViewsDisagree: a Try is observed through IsSuccess/Get/Failed and through Unapply (which try.Traverse_, Fold and
+// the generated code use); a Success must hand out a nil error and a Failure its own error whichever view is taken.
+func tryViewsDisagree[T any](t fp.Try[T]) string {
+	_, err := t.Unapply()
+	switch {
+	case t.IsSuccess() == t.IsFailure():
+		return fmt.Sprintf("a Try reports IsSuccess=%v and IsFailure=%v", t.IsSuccess(), t.IsFailure())
+	case t.IsSuccess() && err != nil:
+		return fmt.Sprintf("a successful Try hands out the error %q through Unapply", err)
+	case t.IsFailure() && (err == nil || !errors.Is(err, t.Failed().Get())):
+		return fmt.Sprintf("a failed Try hands out %v through Unapply and %v through Failed", err, t.Failed().Get())
+	}
+	return ""
 }
 func tryRes(e *c02env, t fp.Try[int]) c02res { return tryResOf(e, t, fp.Id[int]) }
 
